@@ -59,6 +59,16 @@ PROPS = {
                 assumptions=[DALEK, MERLIN, "completeness theorems carry the hypothesis that the masking commitments are not the identity (fails with probability ~2^-252 over honest nonces)",
                              "rand::OsRng is external: the model takes nonces as explicit arguments"]),
     "C20": dict(module="ZkElGamal.Props.C20", ns="Zk.Props.C20", trusted=[DALEK, MERLIN], assumptions=[DALEK, MERLIN]),
+    "C08": dict(module="ZkElGamal.Props.C08", ns="Zk.Props.C08", trusted=[DALEK],
+                assumptions=["panic-freedom of curve25519-dalek, base64, serde_json, bytemuck, merlin themselves is observed through catch_unwind only, not proved",
+                             "harness built with the dev profile: overflow checks and debug assertions on",
+                             "PARTIAL: range-proof decoding/verification entry points are not yet in this check"]),
+    "C09": dict(module="ZkElGamal.Props.C09", ns="Zk.Props.C09", trusted=[DALEK],
+                assumptions=[DALEK, "that a wrong key yields no 32-bit amount is a discrete-log statement: the theorem gives the exact target x*G + r(1-s'/s)*H; the run observes None",
+                             "decrypt_u32 itself (the discrete-log search) is the subject of C10; here its result is compared with the plaintext known to the generator"]),
+    "C11": dict(module="ZkElGamal.Props.C11", ns="Zk.Props.C11", trusted=[DALEK], assumptions=[DALEK]),
+    "C12": dict(module="ZkElGamal.Props.C12", ns="Zk.Props.C12", trusted=[DALEK],
+                assumptions=[DALEK, "base64 / serde_json / bincode are external: modelled (standard alphabet, canonical padding and trailing bits; JSON array of u8) and compared differentially; serde forms beyond the JSON key files are not covered (PARTIAL)"]),
     "C15": dict(module="ZkElGamal.Props.C15", ns="Zk.Props.C15", extra=[consts_check], exhaustive=True,
                 assumptions=["solana_instruction::Instruction / AccountMeta and bytemuck::bytes_of are external (modelled)"]),
     "C16": dict(module="ZkElGamal.Props.C16", ns="Zk.Props.C16", extra=[consts_check], exhaustive=True,
@@ -104,6 +114,28 @@ MANIFEST_TEXT = {
         text="Theorems X_new_none_iff for the nine sigma constructors (zero: decrypts to identity; ct-ct / ct-cmt: decryption and re-encryption/commitment; grouped: exact re-encryption for any number of handles, lo and hi separately; cap: percentage and claimed always, delta only below the cap). "
              "Correspondence: every single statement point, key, amount and opening perturbed in turn: both sides must refuse; honest ones accepted. PARTIAL: range-proof constructor refusals are not yet in this check.",
         note=SIGMA_NOTE),
+    "C08": dict(
+        technique="Lean 4 proof (no_panic theorems over decoder models with Rust's partial operations explicit) + differential correspondence under catch_unwind with overflow checks on",
+        text="Theorems: point/scalar/key-pair/ciphertext/grouped-ciphertext (any handle count)/AE decoders and Pod extraction by index never reach a panic outcome for any byte string / index (slice bounds, checked arithmetic, unwraps, asserts are explicit in the model); "
+             "finding F1 (zero secret scalar reaches assert!) is stated for the unrepaired decoder and was repaired by a fix: commit. Correspondence: every entry point x all lengths 0..2N x special 32-byte values in every field x z+k*l x random, all indices incl. the overflow family, "
+             "malformed base64 / JSON, all sigma verify_proof entry points on length/special/structured inputs: any panic of the implementation is a violation by itself. PARTIAL: the three range-proof instructions and RangeProof/InnerProductProof decoding are not yet included.",
+        note="Trusted: Lean kernel; the decoder model is hand-written and tied to the code by outcome-class agreement (ok/err/panic); external crates' own panic-freedom is only observed."),
+    "C09": dict(
+        technique="Lean 4 proof (decrypt∘encrypt = amount*G for all keys/amounts/openings; grouped handles for all group sizes and indices; exact wrong-key target) + differential correspondence",
+        text="Theorems: decryptTarget s (encryptWith (pubkeyOf s) x r) = x*G for every non-zero s and all x, r; grouped: toElGamal i = direct encryption under key i, handle i decrypts under key i, out-of-range index is none, for every group size; wrong key gives x*G + r(1-s'/s)*H, equal to x*G only if r = 0 or the keys coincide. "
+             "Correspondence: encryption, decryption targets, decrypt_u32 against the known plaintext, grouped sizes 0..3 x indices 0..4, wrong keys, boundary amounts, zero openings.",
+        note="Trusted: Lean kernel; dalek modelled (field/module); the 32-bit decode is C10's subject."),
+    "C11": dict(
+        technique="Lean 4 proof (module identities for every operator) + differential correspondence of all owned/borrowed operator variants against the model, byte-wise",
+        text="Theorems for all scalars/amounts/openings/keys: with(x,r) = xG + rH; add/sub/scalar-mul on commitments, handles, ciphertexts commute with the operation on (amount, opening); add/subtract_amount change only the commitment by amount*G; decryption is linear (any combination). "
+             "Correspondence: each operator in its four ownership variants and both scalar orders must agree with each other and with the model on boundary scalars (0, 1, l-1, u64::MAX), identity points, random values.",
+        note="Trusted: Lean kernel; dalek modelled as a module over a field (wrap-around mod l is the field arithmetic)."),
+    "C12": dict(
+        technique="Lean 4 proof (ok-iff characterisation, re-encode and decode∘encode laws per raw codec from the codec laws) + differential correspondence incl. Pod, base64 and JSON forms",
+        text="Theorems: point / scalar / ciphertext / key-pair / AE decoders succeed iff exact length and every component decodes (key pair: non-zero secret and public = s^-1 H), re-encoding returns the input bytes, decoding an encoding returns the object, encodings are unique. "
+             "Correspondence: all lengths 0..2N, special values and z+k*l in every field, Pod<->typed agreement, grouped ciphertexts with 0..3 handles, extraction = to_elgamal_ciphertext, base64 padding/alphabet/trailing-bit/whitespace variants, JSON key-file variants, writers. "
+             "PARTIAL: base64 and serde_json are modelled, not proved canonical; bincode/serde derive forms and the private proof structs' from_bytes are only exercised through verify_proof.",
+        note="Trusted: Lean kernel; dalek codec laws assumed; base64/serde_json external."),
     "C15": dict(
         technique="Lean 4 proof (encode/decode laws for all inputs; `decide +kernel` over the enum/struct tables regenerated from source) + differential correspondence with the SDK encoders/decoders",
         text="Theorems: the ProofInstruction enum regenerated from instruction.rs equals the documented v1 table (0..12); layout, account order/flags, "
